@@ -65,6 +65,21 @@ pub fn parse_async_script(evs: Vec<Ev>, deferred: bool) -> Result<Parsed, String
     }
 }
 
+/// read an `IppPayload` to its end through the blocking interface, with a small buffer
+fn drain_payload(mut p: IppPayload) -> Vec<u8> {
+    let mut out = vec![];
+    let mut buf = [0u8; 512];
+    loop {
+        match Read::read(&mut p, &mut buf) {
+            Ok(0) => break,
+            Ok(n) => out.extend_from_slice(&buf[..n]),
+            Err(e) if e.kind() == std::io::ErrorKind::Interrupted => continue,
+            Err(_) => break,
+        }
+    }
+    out
+}
+
 /// the same script with the not-ready results removed (what a blocking source can express)
 fn deliver(evs: &[Ev]) -> Vec<Ev> {
     evs.iter().filter(|e| !matches!(e, Ev::Pend)).cloned().collect()
@@ -122,6 +137,34 @@ fn op_parse_src(prop: &str, line: &str, args: &[SExp]) -> CaseResult {
             let (ftext, _) = parsed_text(parse_flat(&all));
             if ftext != text {
                 oracle = Some(format!("outcome {} differs from the outcome on the unfragmented bytes {}", clip(&text), clip(&ftext)));
+            }
+        }
+    }
+    // C06: the same bytes through `parse()` and the payload it hands back (`IppPayload`, read through std::io::Read):
+    // the payload must be exactly what is left of the stream
+    if prop == "C06" && oracle.is_none() && !has_fail && text.starts_with("(ok") {
+        if let Some(all) = flat(&evs) {
+            if let Ok((_, _, want_rest)) = parse_flat(&all) {
+                let got = if mode == "sync" {
+                    ipp::parser::IppParser::new(ipp::reader::IppReader::new(Script::new(evs.clone(), false))).parse().ok().map(|r| drain_payload(r.into_payload()))
+                } else if !has_intr {
+                    let script = Script::new(evs.clone(), false);
+                    let parked = script.parked.clone();
+                    match run(async move { AsyncIppParser::new(AsyncIppReader::new(script)).parse().await }, &parked, 10_000_000) {
+                        Ok(Ok(r)) => Some(drain_payload(r.into_payload())),
+                        _ => None,
+                    }
+                } else {
+                    Some(want_rest.clone())
+                };
+                match got {
+                    Some(g) if g == want_rest => {}
+                    Some(g) => {
+                        let at = g.iter().zip(want_rest.iter()).position(|(a, b)| a != b).unwrap_or(g.len().min(want_rest.len()));
+                        oracle = Some(format!("payload handed back by parse() has {} bytes, the stream had {} left; first difference at offset {}", g.len(), want_rest.len(), at));
+                    }
+                    None => oracle = Some("parse() failed where parse_parts() succeeded".into()),
+                }
             }
         }
     }
